@@ -46,8 +46,10 @@ ASSUMPTIONS = [
     'binary64 arithmetic within 1e-9 relative on the dyadic, well-conditioned instances generated',
 ]
 
+EXTRA_CANON = {}      # set by the value-variation stream: same ids, different values, same process
+
 def canon(desc, symptom, **kw):
-    return dict(op='transient', symptom=symptom, **gs.facts(desc), **kw)
+    return dict(op='transient', symptom=symptom, **gs.facts(desc), **EXTRA_CANON, **kw)
 
 def make_inputs(rng, desc, sources, n):
     """piecewise-linear profiles with breakpoints on the grid, zero at the first sample, constant
@@ -295,10 +297,18 @@ def run(ctx, out):
             if ok: break
             out.count('rejected_degenerate:' + why)
         check_case(ctx, out, desc)
+        # value-variation stream: the same description (ids, nodes, order) with other R, L, C values in
+        # the same process, then the first one again — state leaking between analyses would show here
+        if rng.random() < (0.3 if ctx.quick else 1.0):
+            gs.run_sequence(out, EXTRA_CANON, [desc, gs.vary_values(rng, desc), desc], lambda d: check_case(ctx, out, d, 'varied'))
+            out.count('value_variation_sequences')
         if gs.facts(desc)['n_reactive'] > 1 and rng.random() < (0.3 if ctx.quick else 1.0):
             check_case(ctx, out, gs.permute_reactive(rng, desc, keep_inductors_sorted=safe), 'permuted')
 
 def replay(ctx, out, rp):
+    if rp.get('sequence'):
+        gs.run_sequence(out, EXTRA_CANON, rp['sequence'], lambda d: check_case(ctx, out, d, 'replay'))
+        return
     desc = rp.get('desc')
     if desc is None:
         raise SystemExit('replay file carries no circuit description')
